@@ -572,7 +572,7 @@ func main() {
 
 	r.Evals(cases.Load())
 	r.Nontrivial(nontriv.Load())
-	r.Rule("deterministic enumeration; one case = (kind, field number, value[, list]) encoded with the real Encoder into an exactly-sized canary-framed window (twice, different pre-fill; plus once followed by a sentinel field) and decoded with the real Decoder in safe and fast mode. Cases are pairwise distinct by construction of the enumerators (value sets are deduplicated per kind only approximately: Norm may map two raw patterns to one value, so distinct_nontrivial counts only cases with non-empty output; empty packed lists are counted in evaluations only). Long constant packed lists (>200) use every 8th boundary value.")
+	r.Rule("deterministic enumeration; one case = (kind, field number, value[, list]) encoded with the real Encoder into an exactly-sized canary-framed window (twice, different pre-fill; plus once followed by a sentinel field) and decoded with the real Decoder in safe and fast mode. Cases are pairwise distinct by construction of the enumerators (value sets are deduplicated per kind only approximately: Norm may map two raw patterns to one value, so distinct_nontrivial counts only cases with non-empty output; empty packed lists are counted in evaluations only). Long constant packed lists (>200) use every 8th boundary value. ROUND 8 ADDITIONS: the encoders must leave their slice arguments (and the capacity behind them) untouched; the whole check is also built and run for GOARCH=386.")
 	r.Assume("key and payload are produced by separate calls in encoder.go, so (all field numbers x few values) U (all values x few field numbers) covers the product")
 	r.Assume("64-bit kinds are covered by bit-length/boundary classes and 2^16-word sweeps, not all 2^64 values")
 	r.Finish()
